@@ -111,15 +111,37 @@ def r16_2(ctx, fx):
             ctx.bodies.add((fx.cfg, inner.key))
             # the only way to skip the registration is the equality edge `Some(query_id) == query`
             settle = {c.node for c in inner.calls(r"QueryEngine::register_peer_failure$")}
-            cmps = inner.calls(r"PartialEq.*::(ne|eq)$")
+            cmps = inner.calls(r"PartialEq.*::(ne|eq)$|option::Option(<.*>)?::(map_or|map_or_else|is_some_and|is_none_or)$")
             r = inner.reach([inner.entry], avoid=settle | {c.node for c in cmps})
             skipped = [n for n in inner.return_nodes() if n in r]
             ok_inner = ok_inner and not skipped
+        loop_form = False
+        if inner is None or not inner.calls(r"QueryEngine::register_peer_failure$"):
+            # the same written as `for (_, action) in pending_actions { if Some(id) == query { continue } register_peer_failure(..) }`
+            nxt = [c for c in fn.calls(r"Iterator>?::next$") if any("pending_actions" in x or "IntoIter" in x or "into_iter" in x for x in guards.rootstrs(fn, c.args[0]))]
+            settle = {c.node for c in fn.calls(r"QueryEngine::register_peer_failure$")}
+            cmps = {c.node for c in fn.calls(r"PartialEq.*::(ne|eq)$|option::Option(<.*>)?::(map_or|map_or_else|is_some_and|is_none_or)$")}
+            for nx in nxt:
+                some = set()
+                for sw in fn.discr_switches():
+                    if sw[1] and sw[1][0] in (fn.copies_of(nx.dest[0]) | {nx.dest[0]}) and len(sw[1]) == 1:
+                        some |= {(sw[0], l) for l in fn.variant_edges(sw, "Some")}
+                starts = [n_ for sw_, l_ in some for n_, l2 in fn.succs(sw_) if l2 == l_]
+                if not starts:
+                    continue
+                inloop = [n_ for n_ in settle if n_ in fn.reach(starts) and nx.node in fn.reach([n_], after=True)]
+                if not inloop:
+                    continue
+                back = fn.reach(starts, avoid=set(inloop) | cmps)
+                ok_inner = nx.node not in back
+                loop_form = True
         ctx.ob("R16.2", "disconnect_peer/pending-actions-failed", ok_inner, site=fn.site(fn.entry), cfg=fx.cfg,
                detail="for_each over pending_actions registers a peer failure unless it is the query already failed above")
         # into_iter().for_each over pending_actions on the Some edge of peers.remove
         rm = field_calls(fn, r"HashMap::remove$", "peers")
         fe = fn.calls(r"Iterator::for_each$")
+        if not fe and loop_form:
+            fe = [c for c in fn.calls(r"Iterator>?::next$") if any("pending_actions" in x or "IntoIter" in x or "into_iter" in x for x in guards.rootstrs(fn, c.args[0]))]
         ctx.anchor("R16.2", "disconnect_peer: peers.remove + for_each", min(len(rm), len(fe)), 1, cfg=fx.cfg)
         if rm and fe:
             cuts = refine_cuts(fn, rm[0], ["Some", "?"])
@@ -440,7 +462,16 @@ def r16_6(ctx, fx):
     fn = ctx.fn(fx, K + "open_substream_or_dial", "R16.6")
     if fn is None:
         return
-    stores = [c.node for c in park_nodes(fn, "pending_dials")] + [c.node for c in fn.calls(r"HashMap(<.*>)?::insert$") if "pending_actions" in fn.origin(c.args[0]) or any("pending_actions" in x for x in guards.rootstrs(fn, c.args[0]))]
+    # a call of a method that itself files the action (`PeerContext::add_pending_action(id, action)`) is a park site as well
+    wrappers = []
+    for c in fn.calls(r"."):
+        if c.from_macro or not c.name or not fx.has(c.name) or len(c.args) < 3:
+            continue
+        cal = fx.fn(c.name)
+        if cal is not None and [d for d in cal.calls(r"HashMap(<.*>)?::insert$") if "pending_actions" in cal.origin(d.args[0]) and guards.rootstrs(cal, d.args[1]) == {"param:_2"}]:
+            wrappers.append(c)
+    stores = [c.node for c in park_nodes(fn, "pending_dials")] + [c.node for c in fn.calls(r"HashMap(<.*>)?::insert$") if "pending_actions" in fn.origin(c.args[0]) or any("pending_actions" in x for x in guards.rootstrs(fn, c.args[0]))] \
+        + [c.node for c in wrappers]
     ctx.anchor("R16.6", "open_substream_or_dial: park sites", len(stores), 3, cfg=fx.cfg)
     oks = [n for n, sh in fn.exits() if all(x.startswith("Ok") for x in sh)]
     errs = [n for n, sh in fn.exits() if any(not x.startswith("Ok") for x in sh)]
@@ -452,8 +483,9 @@ def r16_6(ctx, fx):
     ctx.ob("R16.6", "open_substream_or_dial/parked-at-most-once", not twice, site=fn.site(fn.entry), cfg=fx.cfg, detail=str(twice))
     # the substream id tracked in pending_substreams is the one the action is filed under
     ps = [c for c in fn.calls(r"HashMap(<.*>)?::insert$") if "pending_substreams" in fn.origin(c.args[0])]
-    pa = [c for c in fn.calls(r"HashMap(<.*>)?::insert$") if c.node in stores]
-    ok = len(ps) == len(pa) and all(any(guards.rootstrs(fn, a.args[1]) == guards.rootstrs(fn, b.args[1]) and b.node in fn.reach([a.node], after=True) for b in pa) for a in ps)
+    pa = [c for c in fn.calls(r"HashMap(<.*>)?::insert$") if c.node in stores and ("pending_actions" in fn.origin(c.args[0]) or any("pending_actions" in x for x in guards.rootstrs(fn, c.args[0])))] + wrappers
+    same = lambda a, b: guards.rootstrs(fn, a.args[1]) == guards.rootstrs(fn, b.args[1]) and b.node in fn.reach([a.node], after=True)
+    ok = bool(ps) and bool(pa) and all(any(same(a, b) for b in pa) for a in ps) and all(any(same(a, b) for a in ps) for b in pa)
     ctx.ob("R16.6", "open_substream_or_dial/tracked-substream-id-matches-the-parked-action", ok, site=fn.site(fn.entry), cfg=fx.cfg)
 
 
